@@ -64,3 +64,21 @@ func AtHV(point string, height, view uint64) {
 		f(point, height, view)
 	}
 }
+
+// YieldFn and HeldFn, when set, serve the scheduling points that the harness' source instrumentation inserts into a
+// scratch copy of the library (no call site exists in the repository itself): Yield in front of every mutex
+// acquisition, channel operation and select, Held(+1/-1) around every mutex acquisition / release.
+var YieldFn func(point string)
+var HeldFn func(delta int)
+
+func Yield(point string) {
+	if f := YieldFn; f != nil {
+		f(point)
+	}
+}
+
+func Held(delta int) {
+	if f := HeldFn; f != nil {
+		f(delta)
+	}
+}
